@@ -24,6 +24,7 @@ META = dict(
          "by truthiness via CVR.as_vote (inlined). Dict key injectivity of 'w v l' assumes candidate ids do not contain ' v '.",
     technique="lambda extraction + AST-to-term translation, finite value-set enumeration, symbolic-sum identities, closure lint",
 )
+META["text"] += ' (R7, N) make_all_assertions gives every contest the assertions of the factory for its own social choice function, fed with its own winners, the other candidates as losers, its share_to_win / assertion JSON and its own test configuration (one term per iteration against the dispatch table); any other choice function raises.'
 
 
 def outer_tx(idx):
@@ -47,6 +48,7 @@ def run(chk):
     r4_margin(chk)
     r5_mean(chk)
     r6_tally_rule(chk)
+    r7_dispatch(chk)
     r_get_vote_for(chk)
 
 
@@ -368,3 +370,71 @@ def r6_tally_rule(chk):
            "ballots or neither does), so that margin-from-tally == 2*mean(assorter) - 1 on every ballot set",
            node=guards[0] if guards else fn, strength="N", tally_discards_overvotes_by_default=tally_filters,
            assorter_discards_overvotes=assorter_filters)
+
+
+SPEC_DISPATCH = '''
+def spec(con):
+    if con.choice_function == Contest.SOCIAL_CHOICE_FUNCTION.PLURALITY:
+        return Assertion.make_plurality_assertions(contest=con, winner=con.winner, loser=list(set(con.candidates) - set(con.winner)),
+                                                   test=con.test, test_kwargs=con.test_kwargs, estim=con.estim, bet=con.bet)
+    elif con.choice_function == Contest.SOCIAL_CHOICE_FUNCTION.SUPERMAJORITY:
+        return Assertion.make_supermajority_assertion(contest=con, winner=con.winner[0], loser=list(set(con.candidates) - set(con.winner)),
+                                                      share_to_win=con.share_to_win, test=con.test, test_kwargs=con.test_kwargs,
+                                                      estim=con.estim, bet=con.bet)
+    elif con.choice_function == Contest.SOCIAL_CHOICE_FUNCTION.IRV:
+        return Assertion.make_assertions_from_json(contest=con, candidates=con.candidates, json_assertions=con.assertion_json,
+                                                   test=con.test, test_kwargs=con.test_kwargs, estim=con.estim, bet=con.bet)
+    else:
+        raise NotImplementedError("x")
+'''
+
+
+def r7_dispatch(chk):
+    """Which assorters a contest gets: the factory matching its social choice function, fed with the contest's own winners, the
+    other candidates as losers, its share_to_win / assertion JSON, and its own test configuration -- for every contest."""
+    from ..canon import structure_continues
+    from ..cfg import whole_collection
+    fn = chk.fn(REL, "Assertion.make_all_assertions")
+    where = W("Assertion.make_all_assertions")
+    loops = [l for l in fn.body if isinstance(l, ast.For)]
+    ok = False
+    detail = {}
+    if len(loops) == 1 and isinstance(loops[0].target, ast.Tuple) and len(loops[0].target.elts) == 2:
+        l = loops[0]
+        k, con = [norm(e) for e in l.target.elts]
+        body = structure_continues(l.body)
+        sts = [(t, v, s0) for t, v, s0 in stores(l) if isinstance(t, ast.Attribute) and t.attr == "assertions"]
+        slots = {norm(t.value) for t, v, s0 in sts}
+        esc = [x for x in walk_local(l) if isinstance(x, (ast.Break, ast.Return))]
+        if body is not None and slots and slots <= {con, f"contests[{k}]"} and not esc:
+            tx = Tx()
+            tx.env[con] = E(S("con"))
+            # the two spellings of the contest object, `con` and `contests[c]`, denote the same thing inside the loop
+            alias = S(f"contests[{k}]")
+            tx.post = lambda e, alias=alias: e.xreplace({alias: S("con")}) if alias in e.free_symbols else e
+            try:
+                r = tx.block(body)
+                got = None
+                for nm in (f"@con.assertions", f"@contests[{k}].assertions"):
+                    if nm in tx.env:
+                        got = tx.env[nm]
+                if got is not None:
+                    want, _ = spec.spec_term(SPEC_DISPATCH, env={"con": E(S("con"))})
+                    got = with_guards_(got, tx)
+                    okk, n, cex = symx.equivalent(symx.prune(got), symx.prune(want))
+                    detail = dict(rows=n, counterexample=cex)
+                    ok = okk and norm(l.iter) == "contests.items()" and whole_collection(l.iter)
+            except symx.Unsupported as e:
+                detail["untranslated"] = str(e)
+    chk.ob("C02.R7", where, "factory-by-choice-function", ok,
+           "every contest gets the assertions of the factory for its own social choice function (plurality / super-majority / IRV), "
+           "built from its own winners, the other candidates as losers, its own share_to_win or assertion JSON and test "
+           "configuration; any other choice function raises", node=fn, strength="N", **detail)
+
+
+def with_guards_(val, tx):
+    """a value that is only reached when the guards (raise-branches passed) hold: elsewhere the function raises"""
+    g = symx.c_and(*tx.guards) if tx.guards else True
+    if g is True:
+        return val
+    return symx.I(g, val, symx.Raise("NotImplementedError"))
